@@ -127,6 +127,8 @@ func leafPtr(t types.Type) []bool {
 		out = []bool{true}
 	case *types.Slice:
 		out = []bool{true, false, false, false}
+		k2 := k
+		leafSizeCache[k2] = []bool{false, true, true, true}
 	case *types.Interface:
 		out = []bool{false, false}
 	case *types.Struct:
@@ -148,6 +150,27 @@ func leafPtr(t types.Type) []bool {
 
 // compPtr: heap components whose cells hold identifiers (pointers, slice arrays, maps)
 var compPtr = map[string]bool{}
+
+// compSize: heap components whose cells hold a slice offset, length or capacity (0 .. SizeBound)
+var compSize = map[string]bool{}
+var leafSizeCache = map[string][]bool{}
+
+// leafSize: for each leaf, is it a slice offset/length/capacity?
+func leafSize(t types.Type) []bool {
+	var out []bool
+	switch x := under(t).(type) {
+	case *types.Slice:
+		return []bool{false, true, true, true}
+	case *types.Struct:
+		for i := 0; i < x.NumFields(); i++ {
+			out = append(out, leafSize(x.Field(i).Type())...)
+		}
+		return out
+	case *types.Array:
+		return leafSize(x.Elem())
+	}
+	return make([]bool, len(leafSorts(t)))
+}
 
 // leafSorts returns the flattened SMT sorts of a Go type.
 func leafSorts(t types.Type) []*Sort {
